@@ -10,8 +10,9 @@ LEVEL = 'exploration'
 RUNS = {'quick': 48000, 'thorough': 1500000}
 BATCH = 500
 RULE = ('one run = one generated responder script (<=10 ops over accept/receive_*/send_*/pause/'
-        'receive-in-child-then-cancel/close) x one client script (<=6 unique messages, optional '
-        'disconnect) x max_receive_queue in 0..4 x one seeded interleaving of server deliveries, '
+        'receive-in-child-then-cancel/send-in-a-second-task/hand-receiving-to-a-second-task/read-'
+        'ready-closed/close) x one client script (<=6 messages, text or binary, unique strings or '
+        'repeating JSON objects, optional disconnect) x max_receive_queue in 0..4 x one seeded interleaving of server deliveries, '
         'receive wake-ups and send acks with application steps; non-trivial = the application '
         'completed >=1 receive or send and >=2 environment actions were interleaved; distinct = '
         'distinct (workload plan, schedule trace) pairs')
@@ -21,7 +22,7 @@ COMPONENTS = {
     'stub': ['event loop scheduler (detsim.SimLoop)', 'ASGI server + client (detsim.asgi_sim.Conn)',
              'responder script interpreter', 'binary media handler'],
 }
-EXPECTED_PROBES = ('second_connection', 'queue_full', 'recv_cancelled', 'send_bg', 'disconnect_while_full', 'recv_blocked',
+EXPECTED_PROBES = ('second_connection', 'queue_full', 'recv_cancelled', 'send_bg', 'recv_bg', 'disconnect_while_full', 'recv_blocked',
                    'final_disconnect_injected', 'pump_in_hand')
 ASSUMPTIONS = (
     'ready callbacks run FIFO as asyncio guarantees; only environment timing varies',
